@@ -139,9 +139,14 @@ func startChurn() *churn {
 	c.wgBlock.Add(1)
 	l, err := net.Listen("tcp", "127.0.0.1:0")
 	if err == nil {
-		go func() { c.pipeW, _ = l.Accept() }()
+		accepted := make(chan struct{})
+		go func() { c.pipeW, _ = l.Accept(); close(accepted) }()
 		c.pipeR, _ = net.Dial("tcp", l.Addr().String())
+		<-accepted // do not close the listener under a connection that was not accepted yet
 		l.Close()
+		if c.pipeW == nil {
+			c.pipeR = nil
+		}
 	}
 	add := func(e regEntry, f func()) {
 		c.ready.Add(1)
